@@ -58,6 +58,25 @@ pub fn cases(ctx: &Ctx) -> Vec<Case> {
             }
         }
     }
+    // flush when the stream position (what the layers below the block stream have received)
+    // is exactly on / next to a chunk or block edge
+    let edges = [Sz::new(0, 1, 0), Sz::new(0, 2, 0), Sz::new(1, 0, 0), Sz::new(2, 0, 0)];
+    for layers in LAYER_COMBOS {
+        for (ei, e) in edges.iter().enumerate() {
+            if k.is_prod() && ctx.quick() && e.b > 1 {
+                continue;
+            }
+            for d in [-1i64, 0, 1] {
+                for data in [DataKind::Random, DataKind::Constant(0x62)] {
+                    let level = if matches!(data, DataKind::Random) { 1 } else { 5 };
+                    let base = flush_after_each(layers, level, data, &[Sz::lit(1), Sz::lit(30)], ctx.seed ^ (ei as u64 * 16 + (d + 1) as u64));
+                    if let Some(p) = crate::gen::with_size_at(base, &k, 0, "piece_end", Sz::new(e.b, e.c, e.d + d)) {
+                        v.push(Case { prog: p });
+                    }
+                }
+            }
+        }
+    }
     // random programs with flushes between calls
     let n = match (k.is_prod(), ctx.quick()) {
         (false, true) => 800,
@@ -127,6 +146,39 @@ pub fn run_case(ctx: &mut Ctx, c: &Case) {
             ctx.count("musthit:compressible_200000_then_flush");
         }
         ctx.count(&format!("flush:layers{}", p.layers));
+        if p.layers & 2 != 0 {
+            // position of the block stream at this flush, from the layout of the program
+            let lay = layout(p, &k);
+            let nth_flush_pos = {
+                let mut seen = 0usize;
+                let mut pos = 0u64;
+                let mut pi = 0usize;
+                let mut found = None;
+                for op in &p.ops {
+                    match op {
+                        Op::Append(..) | Op::Add(..) => {
+                            if let Some(pt) = lay.points.iter().filter(|pt| pt.kind == "piece_end").nth(pi) {
+                                if pt.piece == Some(pi) {
+                                    pos = pt.pos;
+                                }
+                            }
+                            pi += 1;
+                        }
+                        Op::Flush => {
+                            if seen == fi {
+                                found = Some(pos);
+                            }
+                            seen += 1;
+                        }
+                        _ => {}
+                    }
+                }
+                found
+            };
+            if nth_flush_pos.is_some_and(|x| x > 0 && x % k.block == 0) {
+                ctx.count("musthit:flush_exactly_on_block_edge");
+            }
+        }
         ctx.max("snapshot_bytes", *mark as u64);
         let scen = || json!({"case": c, "k": k.name(), "facts": xlate::facts(p, &k), "flush_index": fi, "snapshot_len": mark});
         // lower bounds
